@@ -2,6 +2,7 @@
 """
 This module provides the Base Section class.
 """
+import operator
 import uuid
 import warnings
 
@@ -832,6 +833,8 @@ class BaseSection(base.Sectionable):
 
     def _reorder(self, childlist, new_index):
         lst = childlist
+        # Refuse a position that is not an integer before anything is changed.
+        new_index = operator.index(new_index)
         old_index = lst.index(self)
 
         # Take the object out first, then insert it at the new position: this is also
